@@ -20,6 +20,12 @@ def generate(rng, tier):
     from ..core import Case
     # the Default values of the header types (values like any other) and conversions nothing else goes through
     yield Case(["impl.bf.defaults"], {"k": "defaults"})
+    # the io::Read decoder of every header type next to the slice decoder, on well-formed headers in which one octet
+    # after the other takes all 256 values (bits no serialiser produces): decoding accepted bytes has to give the same
+    # value through both (C06's operations)
+    from . import c06
+    for c in c06.reader_byte_sweeps(random.Random(rng.randrange(1 << 30)), tier):
+        yield Case(list(c.lines), {"k": "rsweep"})
     r2 = random.Random(rng.randrange(1 << 30))
     n = 0
     for c in c12.generate(r2, "quick"):
@@ -34,12 +40,17 @@ def generate(rng, tier):
 
 
 def oracle(c):
+    if c.meta.get("k") == "rsweep":
+        from . import c06
+        out = []
+        c06.reader_sweep_oracle(c, out, "decoders-differ:")
+        return out
     if c.meta.get("k") == "defaults":
         return [] if c.impl[0] == "ok" else [("default-value-does-not-round-trip", {"impl": (c.impl[0] or "")[:300]})]
     return c12.oracle(c)
 
 
 def is_trivial(c):
-    if c.meta.get("k") == "defaults":
+    if c.meta.get("k") in ("defaults", "rsweep"):
         return False
     return c12.is_trivial(c) if hasattr(c12, "is_trivial") else False
